@@ -110,8 +110,28 @@ Fixpoint holds_from (st : kst) (steps : list tstep_obs) : bool :=
   | o :: r => let '(ok, st') := k_step st o in ok && holds_from st' r
   end.
 
+(* "a second Connect to the same peer is answered 446": and only a second one - 446 is justified only by a connection
+   this very allocation has had with that peer (cp: the (client, peer) pairs announced so far, per allocation) *)
+Fixpoint dup_from (cp : list (addr * addr)) (steps : list tstep_obs) : bool :=
+  match steps with
+  | [] => true
+  | o :: r =>
+      let acts := ts_acts o in
+      let ok := forallb (fun a => match a, ts_ev o with
+                   | TError _ MConnect _ 446%N, TConnect c _ _ (Some pr) _ _ _ =>
+                       existsb (fun e => addr_eqb (fst e) c && addr_eqb (snd e) pr) cp
+                   | _, _ => true end) acts in
+      let new := flat_map (fun a => match a, ts_ev o with
+                   | TSuccess _ MConnect _ (Some _), TConnect c _ _ (Some pr) _ _ _ => [(c, pr)]
+                   | TAttempt c p _, _ => [(c, p)]
+                   | _, _ => [] end) acts in
+      let cp' := match ts_ev o with TEnd c => filter (fun e => negb (addr_eqb (fst e) c)) cp | _ => cp end in
+      ok && dup_from (new ++ cp') r
+  end.
+
 Definition run (c : case) : verdict :=
   (agree_from tinit (tc_steps c),
+   dup_from [] (tc_steps c) &&
    holds_from {| k_now := 0; k_users := []; k_perms := []; k_ann := []; k_bound := []; k_gone := []; k_relays := []; k_open := [] |} (tc_steps c)).
 Definition bad_cases (base : N) (cs : list case) := bad_from run base cs.
 
